@@ -3205,7 +3205,10 @@ def Gillespie_SIR(G, tau, gamma, initial_infecteds=None,
     total_transmission_rate = tau*IS_links.total_weight()#IS_weight_sum
         
     total_rate = total_recovery_rate + total_transmission_rate
-    delay = random.expovariate(total_rate)
+    if total_rate>0:
+        delay = random.expovariate(total_rate)
+    else:
+        delay = float('Inf')
     t += delay
     
     while infecteds and t<tmax:
@@ -3436,7 +3439,10 @@ def Gillespie_SIS(G, tau, gamma, initial_infecteds=None, rho = None, tmin = 0,
     total_transmission_rate = tau*IS_links.total_weight()#IS_weight_sum
             
     total_rate = total_recovery_rate + total_transmission_rate
-    delay = random.expovariate(total_rate)
+    if total_rate>0:
+        delay = random.expovariate(total_rate)
+    else:
+        delay = float('Inf')
     t = t+delay
     
     while infecteds and t<tmax:
